@@ -34,7 +34,11 @@ struct Scripted {
     ch: Ch,
     calls: RefCell<Vec<Call>>,
     algo: rpm::signature::AlgorithmType,
+    /// which error a rejection is reported with (0 key not found, 1 verification failed, 2 I/O error)
+    reject_with: u8,
 }
+
+const REJECTIONS: [&str; 3] = ["KeyNotFoundError", "VerificationError", "Io"];
 
 impl std::fmt::Debug for Scripted {
     fn fmt(&self, f: &mut std::fmt::Formatter<'_>) -> std::fmt::Result {
@@ -52,7 +56,11 @@ impl rpm::signature::Verifying for Scripted {
         if accept {
             Ok(())
         } else {
-            Err(rpm::Error::KeyNotFoundError { key_ref: "scripted".into() })
+            Err(match self.reject_with {
+                0 => rpm::Error::KeyNotFoundError { key_ref: "scripted".into() },
+                1 => rpm::Error::VerificationError { source: pgp::errors::Error::Message("scripted".into()), key_ref: "scripted".into() },
+                _ => rpm::Error::Io(std::io::Error::new(std::io::ErrorKind::Other, "scripted")),
+            })
         }
     }
     fn algorithm(&self) -> rpm::signature::AlgorithmType {
@@ -198,13 +206,16 @@ fn shapes_sweep(name: &'static str, lengths: bool) -> Sweep {
         if let Some(Val::Bin(b)) = &gpg[d[11] as usize].1 {
             allowed.push((&hdr_payload, b.clone()));
         }
-        let describe = || json!({"openpgp": oname, "rsa": rsa[d[1] as usize].0, "dsa": dsa[d[2] as usize].0, "pgp": pgp[d[3] as usize].0, "gpg": gpg[d[11] as usize].0,
+        // the error a rejection is reported with is chosen by the digest axes, which repeat every signature-tag shape hundreds
+        // of times: each signature shape meets each kind of rejection
+        let reject_with = ((d[4] + d[5] + d[6] + d[7]) % 3) as u8;
+        let describe = || json!({"verifier_rejects_with": REJECTIONS[reject_with as usize], "openpgp": oname, "rsa": rsa[d[1] as usize].0, "dsa": dsa[d[2] as usize].0, "pgp": pgp[d[3] as usize].0, "gpg": gpg[d[11] as usize].0,
                                  "digests(sha256,sha1,md5,payload)": [d[4], d[5], d[6], d[7]], "payload_len": payload.len(), "signature_index_reversed": d[9] == 1, "verifier_algorithm": format!("{:?}", valgo), "bytes_hex": vlib::hex(&x)});
         let a: &mut Acc = acc;
         let st = explore_seq(
             usize::MAX,
             |ch| {
-                let sv = Scripted { ch: ch.clone(), calls: RefCell::new(vec![]), algo: valgo };
+                let sv = Scripted { ch: ch.clone(), calls: RefCell::new(vec![]), algo: valgo, reject_with };
                 let r = catch(|| pkg.verify_signature(&sv).map_err(|e| err_kind(&e)));
                 (r, sv.calls.into_inner())
             },
@@ -392,9 +403,80 @@ fn flips_sweep(ctx: &Ctx, env: &Env, key: Key, pairs: bool) -> Sweep {
     })
 }
 
+/// Packages whose header was edited BEFORE the library signed them (so the signature covers the edit): the payload digest
+/// recorded under another algorithm number, or not at all. Whatever the intact package does, no payload change may verify.
+fn presigned_variants_sweep(ctx: &Ctx, env: &Env) -> Sweep {
+    use sha2::Digest;
+    let key = Key::Ed25519;
+    let mut spec = crate::corpus::one_file();
+    spec.compression = Comp::None;
+    let (_, unsigned) = spec.build_bytes(env).unwrap_or_else(|e| crate::ctx::machinery(&format!("c02 presigned: {}", e)));
+    let parts = crate::pkgtool::split(&unsigned).unwrap_or_else(|| crate::ctx::machinery("c02 presigned: split"));
+    let pl = &parts.payload;
+    let hexs = |b: &[u8]| hex::encode(b);
+    let variants: Vec<(String, Option<Val>, Option<Val>)> = vec![
+        ("algorithm 8 (SHA-256), the library's own".into(), Some(Val::Int32(vec![8])), Some(Val::strs(&[&sha256_hex(pl)]))),
+        ("algorithm 1 (MD5) with the payload's MD5".into(), Some(Val::Int32(vec![1])), Some(Val::strs(&[&hexs(&md5_raw(&[pl]))]))),
+        ("algorithm 2 (SHA-1) with the payload's SHA-1".into(), Some(Val::Int32(vec![2])), Some(Val::strs(&[&hexs(&sha1::Sha1::digest(pl))]))),
+        ("algorithm 9 (SHA-384) with the payload's SHA-384".into(), Some(Val::Int32(vec![9])), Some(Val::strs(&[&hexs(&sha2::Sha384::digest(pl))]))),
+        ("algorithm 10 (SHA-512) with the payload's SHA-512".into(), Some(Val::Int32(vec![10])), Some(Val::strs(&[&hexs(&sha2::Sha512::digest(pl))]))),
+        ("algorithm 11 (SHA-224) with the payload's SHA-224".into(), Some(Val::Int32(vec![11])), Some(Val::strs(&[&hexs(&sha2::Sha224::digest(pl))]))),
+        ("algorithm 12 with the payload's SHA-256".into(), Some(Val::Int32(vec![12])), Some(Val::strs(&[&sha256_hex(pl)]))),
+        ("algorithm 14 with the payload's SHA-256".into(), Some(Val::Int32(vec![14])), Some(Val::strs(&[&sha256_hex(pl)]))),
+        ("algorithm 0 with the payload's SHA-256".into(), Some(Val::Int32(vec![0])), Some(Val::strs(&[&sha256_hex(pl)]))),
+        ("algorithm 99 with the payload's SHA-256".into(), Some(Val::Int32(vec![99])), Some(Val::strs(&[&sha256_hex(pl)]))),
+        // a payload digest without an algorithm entry is not a defined shape (C03 does not judge it either, DESIGN §3a)
+        ("algorithm 8 with the payload's SHA-512".into(), Some(Val::Int32(vec![8])), Some(Val::strs(&[&hexs(&sha2::Sha512::digest(pl))]))),
+    ];
+    let mut pkgs: Vec<(String, Vec<u8>, usize)> = vec![];
+    for (name, algo, digest) in variants {
+        let mut q = parts.clone();
+        crate::pkgtool::set(&mut q.main, TAG_PAYLOADDIGEST, digest);
+        crate::pkgtool::set(&mut q.main, 5093, algo);
+        let edited = q.join().0;
+        let Ok(mut p) = rpm::Package::parse(&mut &edited[..]) else { crate::ctx::machinery(&format!("c02 presigned: {} does not parse", name)) };
+        if let Err(e) = p.sign_with_timestamp(env.signer(key), 1_600_000_000u32) {
+            crate::ctx::machinery(&format!("c02 presigned: signing {} fails: {}", name, e));
+        }
+        let mut b = vec![];
+        p.write(&mut b).expect("write");
+        let off = scan(&b).map(|t| t.3.payload_off).unwrap_or_else(|| crate::ctx::machinery("c02 presigned: scan"));
+        pkgs.push((name, b, off));
+    }
+    let verifier = key.verifier(&ctx.repo);
+    let per = 1 + pkgs.iter().map(|p| (p.1.len() - p.2) * 8).max().unwrap_or(0) as u64;
+    let n = per * pkgs.len() as u64;
+    Sweep::new("presigned-variants", format!("a package with one file (uncompressed, {} payload bytes) whose payload digest entries were edited before the library signed it with the ed25519 key, so that the signature covers the edit — {} variants: the digest recorded under algorithm numbers 8, 1, 2, 9, 10, 11 (each with the payload's true digest of that algorithm), 12, 14, 0, 99, and a SHA-512 under number 8; for each, every single-bit flip of the payload: verify_signature must not succeed (the intact package may verify or not)", pl.len(), pkgs.len()), n, move |i, acc| {
+        let (name, bytes, off) = &pkgs[(i / per) as usize];
+        let k = i % per;
+        acc.evals += 1;
+        let mut x = bytes.clone();
+        if k == 0 {
+            let r = parse_pkg(&x).ok().and_then(|r| r.ok()).map(|p| catch(|| p.verify_signature(&verifier).is_ok()));
+            acc.count(&format!("intact: {:?}", r.map(|r| r.unwrap_or(false))));
+            return;
+        }
+        let bit = k - 1;
+        let pos = off + (bit / 8) as usize;
+        if pos >= x.len() {
+            return;
+        }
+        x[pos] ^= 1 << (bit % 8);
+        let case = || json!({"payload_digest_recorded_as": name, "flipped_payload_bit": [pos, bit % 8], "bytes_hex": vlib::hex(&x)});
+        let Ok(Ok(p)) = parse_pkg(&x) else { return acc.count("parse error") };
+        acc.nontrivial += 1;
+        match catch(|| p.verify_signature(&verifier)) {
+            Err(pn) => acc.viol(panic_violation("presigned-variants", &pn, case()).rank(i)),
+            Ok(Err(e)) => acc.count(&format!("rejected: {}", err_kind(&e))),
+            Ok(Ok(())) => acc.viol(Violation::new("presigned-variants", format!("a package whose payload was modified still verifies (payload digest recorded as: {})", name), case()).sig("clause", "modified-package-verifies").sig("mode", "presigned").rank(i)),
+        }
+    })
+}
+
 pub fn sweeps(ctx: &Ctx) -> Vec<Sweep> {
     let env = Env::new(&ctx.repo, "c02");
     let mut v = vec![shapes_sweep("scripted-verifier", false), shapes_sweep("scripted-verifier-lengths", true)];
+    v.push(presigned_variants_sweep(ctx, &env));
     let keys: Vec<Key> = if ctx.thorough() { ALL_KEYS.to_vec() } else { vec![Key::Ed25519, Key::EcdsaP256] };
     for k in keys {
         v.push(flips_sweep(ctx, &env, k, false));
@@ -526,7 +608,7 @@ pub fn replay(ctx: &Ctx, v: &Value) -> i32 {
         let pre: Vec<u32> = script.iter().map(|x| x.as_u64().unwrap_or(0) as u32).collect();
         let ch = vlib::explore::Chooser::new(pre);
         let algo = ALGOS.iter().copied().find(|a| Some(format!("{:?}", a)) == c["verifier_algorithm"].as_str().map(|s| s.to_string())).unwrap_or(rpm::signature::AlgorithmType::RSA);
-        let sv = Scripted { ch: ch.clone(), calls: RefCell::new(vec![]), algo };
+        let sv = Scripted { ch: ch.clone(), calls: RefCell::new(vec![]), algo, reject_with: REJECTIONS.iter().position(|r| Some(*r) == c["verifier_rejects_with"].as_str()).unwrap_or(0) as u8 };
         let r = p.verify_signature(&sv);
         println!("verify_signature = {:?}; verifier calls:", r.as_ref().map_err(|e| e.to_string()));
         for c in sv.calls.borrow().iter() {
